@@ -71,7 +71,7 @@ fn framing_failure(p: &Packet, b: &[u8]) -> Option<(String, String)> {
 
 /// a `Write + Seek` sink that accepts at most `chunk` bytes per call and, when `interrupt` is set, fails
 /// every other call with `ErrorKind::Interrupted` (which `write_all` retries)
-struct SlowSink { inner: std::io::Cursor<Vec<u8>>, chunk: usize, interrupt: bool, tick: u64 }
+pub struct SlowSink { pub inner: std::io::Cursor<Vec<u8>>, pub chunk: usize, pub interrupt: bool, pub tick: u64 }
 impl std::io::Write for SlowSink {
     fn write(&mut self, buf: &[u8]) -> std::io::Result<usize> {
         self.tick += 1;
@@ -334,6 +334,18 @@ pub fn c07(tier: &str, seed: u64) -> Vec<Case> {
                 let mut c2 = Case::oracle_only().tag("offset-writer");
                 if !ok || inner[start..] != comp[..] { c2 = c2.fail("offset-writer-differs", format!("write_compressed_to at stream offset {} does not emit the message of build_bytes_vec_compressed (pointers must count from the first byte of the message)", start)); }
                 v.push(c2);
+            }
+            // ... and into storage that is longer than the message (a reused datagram buffer, a pre-sized frame): the bytes
+            // from the start offset are the message, whatever lay beyond the write position
+            for start in [0usize, 2] {
+                let mut cur = Cursor::new(vec![0xEEu8; start + comp.len() + 37]);
+                cur.set_position(start as u64);
+                let ok = std::panic::catch_unwind(std::panic::AssertUnwindSafe(|| p.write_compressed_to(&mut cur).is_ok())).unwrap_or(false);
+                let endp = cur.position() as usize;
+                let inner = cur.into_inner();
+                let mut c4 = Case::oracle_only().tag("presized-writer");
+                if !ok || endp != start + comp.len() || inner[start..endp] != comp[..] { c4 = c4.fail("offset-writer-differs", format!("write_compressed_to into storage longer than the message (start offset {}) does not leave the message of build_bytes_vec_compressed there", start)); }
+                v.push(c4);
             }
             // ... and so does a sink that accepts 1, 3 or 5 bytes per call (and interrupts every other call), at
             // offsets 0 and 2: the pointers count bytes accepted, not bytes offered
